@@ -114,7 +114,7 @@ def api_replay(L, N, use_obliquity, sync, what):
         spin = None if sync else 2.7e-5
         kw = dict(host_mass=1.9e27, target_radius=1.8e6, target_mass=8.9e22, target_gravity=1.8, target_density=3500., target_moi=1.0e35,
                   rheology='cpl', eccentricity=0.07, obliquity=0.2 if use_obliquity else None, orbital_frequency=n, spin_frequency=spin,
-                  max_tidal_order_l=L, eccentricity_truncation_lvl=N, use_obliquity=use_obliquity)
+                  max_tidal_order_l=L, eccentricity_truncation_lvl=N, use_obliquity=use_obliquity, tidal_scale=0.37)      # a scale != 1: heating and the potential derivatives must carry it alike
         if what.startswith('circular synchronous'):
             # circular, zero-obliquity, synchronous orbit; spin passed as its own array with the same values as the mean motion
             kw.update(eccentricity=replay.arr([0.0, 0.0]), obliquity=None, use_obliquity=False, orbital_frequency=replay.arr([n, 1.5 * n]), spin_frequency=replay.arr([n, 1.5 * n]))
